@@ -212,6 +212,41 @@ def shape_array(coll, n, container="array"):
                  guard=["*g[%d]" % i for i in range(n)])
 
 
+def shape_owned_container(coll, container, n, kind="M"):
+    """collection owning an array / Vec / boxed slice of n locks (ids 6..)"""
+    setup = ["let o%d = new_%s(%d);" % (i, kind.lower(), 6 + i) for i in range(n)]
+    elems = ", ".join("o%d" % i for i in range(n))
+    if container == "array":
+        data, lty, tag = "[%s]" % elems, "[%s; %d]" % (kind, n), "a"
+    elif container == "vec":
+        data, lty, tag = "vec![%s]" % elems, "Vec<%s>" % kind, "v"
+    else:
+        data, lty, tag = "vec![%s].into_boxed_slice()" % elems, "Box<[%s]>" % kind, "b"
+    leaves = [(str(6 + i), kind, "&o%d" % i) for i in range(n)]
+    names = {"boxed": ("BoxedLockCollection", "bxo"), "retry": ("RetryingLockCollection", "rto"), "owned": ("OwnedLockCollection", "ow")}
+    cname, nm = names[coll]
+    return Shape("%s%s_%s%d" % (nm, tag, kind.lower(), n), coll, setup, ["let coll = %s::new(%s);" % (cname, data)], "%s::<%s>" % (cname, lty),
+                 leaves, kind == "R", guard=["*g[%d]" % i for i in range(n)], rguard=["*g[%d]" % i for i in range(n)])
+
+
+def shape_container_of_tuples(coll, container):
+    """array / Vec whose elements are themselves multi-leaf (tuples of references): leaves = elements x arity"""
+    st, names = picks("MRMR")
+    elems = "(%s, %s), (%s, %s)" % tuple(names)
+    if container == "vec":
+        data, lty, tag = "vec![%s]" % elems, "Vec<(&M, &R)>", "vt"
+    else:
+        data, lty, tag = "[%s]" % elems, "[(&M, &R); 2]", "at"
+    leaves = [(idexpr(nm, k), k, nm) for nm, k in zip(names, "MRMR")]
+    cname, nm = {"boxed": ("BoxedLockCollection", "bx"), "retry": ("RetryingLockCollection", "rt"), "ref": ("RefLockCollection", "rf")}[coll]
+    if coll == "ref":
+        build = ["let tup = %s;" % data, "let coll = match RefLockCollection::try_new(&tup) { Some(c) => c, None => { vcheck!(false, M_DUP_VERDICT); return; } };"]
+    else:
+        build = ["let coll = match %s::try_new(%s) { Some(c) => c, None => { vcheck!(false, M_DUP_VERDICT); return; } };" % (cname, data)]
+    return Shape("%s%s_mrmr" % (nm, tag), coll, ["let u = universe();"] + st, build, "%s::<%s>" % (cname, lty), leaves, False,
+                 guard=["*g[0].0", "*g[0].1", "*g[1].0", "*g[1].1"])
+
+
 def shape_pois(k):
     st = ["let o0 = new_%s(6);" % k.lower()]
     return Shape("po_" + k.lower(), "pois", st, ["let coll = Poisonable::new(o0);"], "Poisonable::<%s>" % k,
@@ -307,10 +342,31 @@ def all_shapes(tier):
         sh.append(shape_nested(n))
     for n in ("bx_ow", "rt_ow"):
         sh.append(owned_first(shape_nested(n)))
+    # containers: arrays, vectors, boxed slices (references into the universe, and owned)
+    sh.append(shape_array("boxed", 3, "array"))
+    sh.append(shape_array("retry", 3, "vec"))
+    sh.append(shape_owned_container("boxed", "vec", 3))
+    sh.append(shape_owned_container("owned", "array", 3))
+    sh.append(shape_owned_container("retry", "slice", 3, "R"))
+    # four leaves: one concrete (seeded) arrangement in the quick tier, symbolic in the thorough tier
+    saved = FIXED_PICKS[0]
+    if tier == "quick" and saved is None:
+        FIXED_PICKS[0] = 0
+    try:
+        sh.append(shape_container_of_tuples("boxed", "vec"))
+        sh.append(shape_container_of_tuples("retry", "array"))
+    finally:
+        FIXED_PICKS[0] = saved
     if tier != "quick":
-        sh.append(shape_array("boxed", 3, "array"))
         sh.append(shape_array("retry", 3, "array"))
         sh.append(shape_array("boxed", 3, "vec"))
+        sh.append(shape_owned_container("boxed", "slice", 4))
+        sh.append(shape_owned_container("owned", "vec", 4, "R"))
+        sh.append(shape_owned_container("retry", "array", 4))
+        sh.append(shape_owned_container("boxed", "array", 2, "R"))
+        sh.append(shape_container_of_tuples("ref", "vec"))
+        sh.append(shape_container_of_tuples("boxed", "array"))
+        sh.append(shape_container_of_tuples("retry", "vec"))
     return sh
 
 
@@ -373,7 +429,7 @@ def oracle_try(shape, mode):
 def pre_stmts(shape):
     out = []
     for j, (i, k, ref) in enumerate(shape.leaves):
-        if ref == "raw6":
+        if ref in ("raw6", "&raw"):
             continue
         out.append("let _p%d = pre_%s(%s);" % (j, k.lower(), ref))
     return out
